@@ -5,6 +5,20 @@ import MdsVerif.Spec.Deque
 Driver stream C07: runs `Model.Queue.step` (the ring buffer) and
 `Spec.Deque.step` (the list deque) — the very functions `C07_history` is
 about — on every line, and prints result plus the full observable state.
+
+Lock-step (audit item A2): the implementation's observation also carries the
+ring-buffer bookkeeping `head=… n=… cap=…` (`q.head`, `q.n`, `len(q.vs)`, read
+through `queue.VerifState`), and the model prints its own `head`, `n`, `cap`
+after every operation, so implementation = model compares the internal state
+statement by statement, not only the observables.  The only thing the model
+cannot compute is what Go's `append` does on a growing `Add`/`Push`; for such a
+call the driver takes the growth from the implementation's observation:
+`extra := implCap − oldLen − 1` (the spare cells `append` handed back beyond the
+new element).  This is sound because `C07_history` holds for EVERY `extra`; an
+implementation that did not grow (or whose observation is unreadable) makes the
+model's `cap` differ from the implementation's and is reported.  The spec
+verdict stays the list deque on the observable part (everything before
+` head=`).
 -/
 namespace MdsVerif.Drv.C07
 open MdsVerif.Drv MdsVerif.Model.Queue MdsVerif.Spec
@@ -40,17 +54,33 @@ def parseOp (extra : Nat) : List String → Option (Op Int)
   | ["each", k] => k.toNat?.map .each
   | _ => none
 
+/-- the `cap=` field (last field) of the implementation's observation -/
+def implCap (impl : String) : Option Nat :=
+  match impl.splitOn " cap=" with
+  | [_, c] => c.toNat?
+  | _ => none
+
+/-- the observable part of the implementation's observation (what the list deque can speak about) -/
+def observable (impl : String) : String := (impl.splitOn " head=").headD ""
+
+/-- growth of Go's `append` on this call, read off the implementation: `len(q.vs)` after the call minus
+the old length minus the appended element (used by the model only when the call grows the buffer) -/
+def extraOf (q : Q Int) (impl : String) : Nat :=
+  match implCap impl with
+  | some c => c - q.cap - 1
+  | none => 0
+
 def step (s : S) (toks : List String) (impl : String) : S × String × String :=
   let go (s : S) (op : Option (Op Int)) : S × String × String :=
     let (q', m) := observe Model.Queue.step s.q op
     let (d', sp) := observe Deque.step s.d op
-    ({ q := q', d := d' }, m, verdict (sp == impl) s!"spec: {sp}")
+    ({ q := q', d := d' }, s!"{m} head={q'.head} n={q'.n} cap={q'.cap}",
+      verdict (sp == observable impl) s!"spec: {sp}")
   match toks with
   | ["reset", "zero"] | ["reset", "new"] => go {} none
   | ["reset", "size", n] => go { q := Q.newSize (n.toNat?.getD 0), d := [] } none
   | _ =>
-    -- growth policy of the driver: double (only observables are compared; the theorem covers every policy)
-    match parseOp s.q.cap toks with
+    match parseOp (extraOf s.q impl) toks with
     | some op => go s (some op)
     | none => (s, "bad-op", "bad bad-op")
 
